@@ -296,6 +296,29 @@ def verify_unit(unit, tier):
     return res
 
 
+def syntactic_obligations(pinfo):
+    """Frame obligations generated from the source text (DESIGN.md U15): every syntactic use of a watched name must have
+    one of the allowed shapes.  Returns (count, failures)."""
+    import glob
+    fails = []
+    n = 0
+    for ob in pinfo.get('syntactic', []):
+        for path in sorted(glob.glob(os.path.join(vgen.REPO, ob['files']), recursive=True)):
+            text = open(path).read()
+            cut = text.find('#[cfg(test)]')
+            if cut >= 0 and ob.get('skip_tests', True):
+                text = text[:cut]
+            text = rsx.strip_comments(text)
+            flat = re.sub(r'\s+', ' ', text)
+            for m in re.finditer(ob['find'], flat):
+                n += 1
+                ctx = flat[max(0, m.start() - 80):m.end() + 120]
+                if not re.search(ob['must'], flat[m.start():m.end() + 160]):
+                    fails.append(dict(fn='syntactic:' + ob['id'], src=os.path.relpath(path, vgen.REPO), src_line=text.count('\n', 0, 0), kind='frame',
+                                      msg='syntactic frame obligation %s failed' % ob['id'], text='%s: use `%s` does not match the allowed shape /%s/: ...%s...' % (os.path.relpath(path, vgen.REPO), m.group(0), ob['must'], ctx)))
+    return n, fails
+
+
 def load_known():
     p = os.path.join(VERIF, 'known_findings.json')
     if os.path.exists(p):
@@ -367,6 +390,9 @@ def main():
                 known_hits.append((k, f))
             else:
                 violations.append((r['unit'], f))
+    syn_n, syn_fails = syntactic_obligations(pinfo)
+    for f in syn_fails:
+        violations.append(('syntactic', f))
     # thorough tier / failure follow-up hooks (Kani, replay) live in vcex.py
     cex = {}
     kani_res = []
@@ -403,8 +429,8 @@ def main():
             print('note: known finding %s no longer reproduces on this tree' % k['id'])
     # ---- evidence
     fns = [f for r in results for f in r['functions']]
-    obligations = sum(r['verus_verified'] + r['verus_errors'] for r in results)
-    discharged = sum(r['verus_verified'] for r in results)
+    obligations = sum(r['verus_verified'] + r['verus_errors'] for r in results) + syn_n
+    discharged = sum(r['verus_verified'] for r in results) + syn_n - len(syn_fails)
     kani_complete = [k for k in kani_res if k.get('complete')]
     obligations += sum(k.get('checks', 0) for k in kani_complete)
     discharged += sum(k.get('checks', 0) for k in kani_complete if k.get('status') == 'proved')
